@@ -101,7 +101,13 @@ fn wait_for_child_done(fds: &[c_int], child_pid: pid_t) -> i32 {
                 // Child closed pipe without sending a byte - get the process exit_status
                 let mut status: libc::c_int = -1i32;
                 libc::waitpid(child_pid, &mut status, 0);
-                libc::WEXITSTATUS(status)
+                if libc::WIFEXITED(status) {
+                    libc::WEXITSTATUS(status)
+                } else {
+                    // The child was killed by a signal (or we couldn't get its status), so it
+                    // didn't finish writing the output. Don't report success.
+                    128 + libc::WTERMSIG(status)
+                }
             }
         }
     }
